@@ -6,12 +6,11 @@ import os
 from vlib import core
 
 META = {
-    "claimed": False,
     "harness_bins": ["c20"],
     "extract": "C20.v",
     "technique": "Coq proof about a model of the resolver glue (requirement views, buckets, post-resolution lookup, lock-file construction, package map) with pubgrub as an oracle under a stated contract; every pubgrub answer is translation-validated by a proved-correct checker and a proved-complete brute-force solver; model tied to the Rust crate by differential runs on synthetic on-disk indices",
-    "level_text": "Theorems (coq/Props/C20.v), for all indices, manifests, lock files and answers of the solver: the solver's bucket+range view of a requirement equals the property's words and the repaired matcher, and the unchanged tree's matcher is refuted (two witness classes, recorded as known findings); for every valid assignment (in particular every answer of a solver meeting the stated pubgrub contract) every dependency edge's lookup returns the version assigned to its bucket, which satisfies the requirement, with one version per package and compatibility class — unconditionally for the repaired matcher, and for the unchanged matcher exactly outside the known class; the executable checker valid_solution is equivalent to the declarative spec and the brute-force exists_solution is complete; LockFile::new and package_map do not panic and the lock-file namer is injective; a complete valid lock is reproduced by every decide/propagate solver run. The tie: the Rust resolver is run on generated universes (exhaustive small ones in the thorough tier) and its answer, every edge binding, the lock file, the package map and the re-resolution are compared with the extracted model; each success is validated by the extracted checker, each failure by the extracted brute force, and a model-free oracle re-checks the property on Rust's own output.",
-    "level_note": "Trusted: Coq kernel; extraction (ExtrOcamlBasic + ExtrOcamlNativeString); the hand-written model's reading of resolve.rs/version.rs/lock.rs; the harness and generators. pubgrub is not modelled: its answers are validated one by one (success: valid_solution; NoSolution: brute force), and theorems that mention it use an explicit Section hypothesis (its documented contract), never an axiom. Only index dependencies are modelled (git/path packages and the snapshot are outside the model; the manifest is built in memory). Known finding on the unchanged tree: SemVerPrefix::matches disagrees with the solver's view (proposed/C20-matches.diff).",
+    "level_text": "Theorems (coq/Props/C20.v, 27, closed under the global context), for all indices, manifests, lock files and solver answers: (req_views_agree) the solver's bucket+range view of a requirement equals the property's words (exact version, or same compatibility class and not lower, no prerelease unless exact) and equals the matcher now in the tree (matches_fix); the matcher of the tree before dd15f85 (matches_cur) is refuted with two witness classes; (lookup_total_and_right) on every valid assignment, hence on every answer of a solver meeting the stated pubgrub contract (a Section hypothesis, shown satisfiable), each dependency edge's index_dep_version returns the version assigned to the edge's bucket, it satisfies the requirement, there is one version per package and class, independently of the order of the stored list; for the old matcher the same holds exactly outside the proved-non-empty known class; (checker_complete) valid_solution <-> declarative spec, exists_solution = None <-> no assignment is valid; (lock_no_crash, namer_injective) LockFile::new never panics and terminates with a lock file (cyclic indices included), package_map returns, entry names are in bijection with precise packages; (relock_stable) with a lock that is a complete valid solution every run of a decide/propagate solver scheme decides exactly the locked versions without conflict. Tie: the Rust resolver is run on generated universes (exhaustive small families in the thorough tier); its answer is validated by the extracted checker (success) or brute force (NoSolution); every edge binding, sorted_dependencies, the lock file, the package map are compared with the extracted model of the matcher the tree implements (detected from the refuted-lemma witnesses); re-resolution with the produced lock must return the same versions and lock; a model-free oracle re-checks the property on Rust's own output.",
+    "level_note": "Trusted: Coq kernel; extraction (ExtrOcamlBasic + ExtrOcamlNativeString); the hand-written model's reading of resolve.rs/version.rs/lock.rs (tied by correspondence only); the harness, generators and the model-free oracle in checks/c20.py. pubgrub is not modelled or proved: its answers are validated one by one, and theorems mentioning it assume its documented contract explicitly (pubgrub 0.3 breaks that contract on self-dependencies; since 3edc943 the provider never reports one, and the check would flag a recurrence through the checker). relock_stable is about a solver scheme without conflict learning, instantiated by pubgrub only as observed (RL=same on every universe; the lock's entries are validated as a complete solution per universe). Only index dependencies are modelled: git/path packages, Snapshot and manifest evaluation are outside the model (the root manifest is built in memory). Findings of this property, all fixed in /repo: dd15f85 (SemVerPrefix::matches: minor gap panic, prerelease picked), 3edc943 (self-dependency).",
 }
 
 PRES = ["", "alpha", "rc1"]
@@ -587,6 +586,7 @@ def run_robust(exe, cases, depth=0):
         res[first] = "res=ABORT"
         rc2, rest, err2 = run_robust(exe, cases[first + 1:hi], depth + 1)
         res[first + 1:hi] = rest
+    res = ["res=ABORT" if x == "<missing>" else x for x in res]
     return 0, res, err
 
 
